@@ -25,8 +25,10 @@ try:
     # demos may refer to their own worktree path: rewrite it
     d = open(os.path.join(src, "demo.py")).read()
     d2 = re.sub(r"/tmp/wt\d?/C\d\d", wt, d)
-    os.makedirs(os.path.join(wt, "seed"), exist_ok=True)          # same relative location as in the agent's worktree
-    demo_path = os.path.join(wt, "seed", "demo.py")
+    sub = os.path.basename(os.path.normpath(src))
+    rel = os.path.join("seed", sub) if re.fullmatch(r"m\d+", sub) else "seed"       # same relative location as in the agent's worktree
+    os.makedirs(os.path.join(wt, rel), exist_ok=True)
+    demo_path = os.path.join(wt, rel, "demo.py")
     open(demo_path, "w").write(d2)
 
     def demo():
